@@ -61,12 +61,12 @@ struct bitset {
         : bitset(0ULL)
     {
         auto const len = etl::min<decltype(pos)>(n, str.size() - pos);
-        TETL_PRECONDITION(len >= 0);
-        TETL_PRECONDITION(len <= size());
+        // only the first size() of the len characters are used [bitset.cons]
+        auto const m = etl::min<decltype(pos)>(len, size());
 
-        // the last of the len characters corresponds to bit 0 [bitset.cons]
-        for (decltype(pos) i = 0; i < len; ++i) {
-            auto const ch = str[pos + len - 1 - i];
+        // the last of the m characters corresponds to bit 0 [bitset.cons]
+        for (decltype(pos) i = 0; i < m; ++i) {
+            auto const ch = str[pos + m - 1 - i];
             if (Traits::eq(ch, one)) {
                 set(i, true);
             }
